@@ -429,7 +429,16 @@ def gen_solve(r, n, tag=None, tol=False, form=None, left=None, K=None):
         if s and unit:
             T = [[(1 << s) if i == j else T[i][j] for j in range(n)] for i in range(n)]
     Aeff = T if tag.startswith("t") else A
-    if tol or (tag == "semi" and rank < n) or r.chance(1, 6):
+    if r.chance(1, 12):
+        # zero right-hand side / zero columns (the solution is zero; every solver must return it, not NaN)
+        zc = [r.chance(1, 2) for _ in range(m)]
+        if K == "v" or not any(zc):
+            B = " ".join("0" for _ in range(n * m))
+        elif left:
+            B = " ".join("0" if zc[k] else str(r.range(-5, 5)) for i in range(n) for k in range(m))
+        else:
+            B = " ".join("0" if zc[k] else str(r.range(-5, 5)) for k in range(m) for i in range(n))
+    elif tol or (tag == "semi" and rank < n) or r.chance(1, 6):
         cnt = n * m
         B = " ".join(str(r.range(-5, 5)) for _ in range(cnt))
     else:
@@ -552,7 +561,7 @@ def gen_oracle_only(r, n):
         A, s = float_spd(r, n)
         left = r.chance(1, 2); K = r.choice(["v", "r", "c"]); m = 1 if K == "v" else r.choice([1, 3])
         form = r.choice(FORMS_ANY if K == "v" else FORMS_ANY + FORMS_MAT)
-        B = " ".join(str(r.range(-5, 5)) for _ in range(n * m))
+        B = " ".join(("0" if r.chance(1, 10) else str(r.range(-5, 5))) for _ in range(n * m))
         return dict(op=f"solve cg {'L' if left else 'R'} {oa} {K} {form} {n} {m} {emit(A, s)} {B}",
                     kind="tol", n=n, name="cg", cfg=f"{'L' if left else 'R'}{oa}{K}{form}")
     return gen_syev(r, n)
@@ -839,7 +848,25 @@ def classify_key(c, st, detail, impl_line, blas):
         return "C02-pstrf-zero-matrix"
     if t[0] == "solve" and t[1] == "semi" and all(x == "0" for x in t[8:8 + int(t[6]) ** 2]):
         return "C02-pstrf-zero-matrix"
+    if t[0] == "solve" and t[1] == "cg" and "nan" in impl_line and cg_zero_rhs(t):
+        return "C02-cg-zero-rhs-nan"
     return f"{st.lower()}:{c['name']}:{c['cfg']}" + (":cblas" if blas else "")
+
+
+def cg_zero_rhs(t):
+    """the listed defect C02-cg-zero-rhs-nan only: a cg solve that hands an exactly zero vector to the vector version of
+    cg_solver::cg -- a zero vector right-hand side, or (forms p/q, left: solve(A, B e_k)) a zero column of B"""
+    try:
+        left, K, form, n, m = t[2] == "L", t[4], t[5], int(t[6]), int(t[7])
+        rhs = t[8 + n * n:]
+        zero = lambda x: Fraction(x) == 0
+        if K == "v":
+            return all(zero(x) for x in rhs[:n])
+        if form in "pq" and left:
+            return any(all(zero(rhs[i * m + k]) for i in range(n)) for k in range(m))
+    except (ValueError, IndexError, ZeroDivisionError):
+        pass
+    return False
 
 
 def build(ctx):
